@@ -481,7 +481,8 @@ enum NameStatus
   NS_TRUNC,       // ran off the end of the buffer / of the enclosing RDATA
   NS_BAD_LABEL,   // length byte 0x40..0xbf (reserved label types / oversize label)
   NS_PTR_OOB,     // pointer target >= message size
-  NS_PTR_LOOP     // pointer chain revisits a pointer
+  NS_PTR_LOOP,    // pointer chain revisits a pointer
+  NS_TOO_LONG     // more than 255 octets accumulated: a decoder has to stop here (RFC 1035 2.3.4), whatever follows
 };
 struct NameWalk
 {
@@ -568,9 +569,16 @@ inline NameWalk walkName(const Bytes &m, size_t pos, size_t lo, size_t hi, bool 
       w.st = NS_TRUNC;
       return w;
     }
+    w.wireLen += 1 + c;
+    if (w.wireLen > 255)
+    {
+      // events are judged in decoding order: the length limit is reached before anything that lies further on
+      // (including a pointer that would close a cycle), so this is an oversize name, not a pointer loop
+      w.st = NS_TOO_LONG;
+      return w;
+    }
     if (capture)
       w.name.labels.push_back(m.substr(p + 1, c));
-    w.wireLen += 1 + c;
     p += 1 + c;
   }
 }
@@ -622,8 +630,6 @@ inline RefDecoded refDecode(const Bytes &m, bool full = true)
     {
       if (w.forward)
         d.lax = "forward pointer";
-      else if (w.wireLen > 255)
-        d.lax = "name longer than 255 octets";
     }
   };
   size_t size = m.size();
